@@ -508,11 +508,11 @@ class Run:
             self.add_channel("B", b.createDataChannel("c19b"))
         self.scan()
 
-    async def call(self, side, name, *args):
+    async def call(self, side, name, *args, rnd=1):
         if self.close_started[side]:
             raise ScriptStop
         pc = self.pcs[side]
-        label = "%s.%s" % (side, name)
+        label = "%s.%s" % (side, name) + ("@%d" % rnd if rnd > 1 else "")
         self.at_script(label, "enter")
         self.current[side] = name
         try:
@@ -560,6 +560,24 @@ class Run:
             await self.call("B", "setLocalDescription", answer)
             await self.call("A", "setRemoteDescription", self.signal(b.localDescription))
             self.at_script("post", "enter")
+            if cfg.get("reneg"):
+                # a second offer/answer round started at once by side `reneg`, i.e. while ICE / DTLS of
+                # the first round are still in progress: further __connect coroutines queue up behind
+                # the one that owns iceTransport.start() / dtlsTransport.start()
+                x = cfg["reneg"]
+                y = other(x)
+                px, py = self.pcs[x], self.pcs[y]
+                if cfg.get("reneg_add") == "dc":
+                    self.add_channel(x, px.createDataChannel("c19r"))
+                elif cfg.get("reneg_add"):
+                    px.addTransceiver(cfg["reneg_add"], direction="sendrecv")
+                offer2 = await self.call(x, "createOffer", rnd=2)
+                await self.call(x, "setLocalDescription", offer2, rnd=2)
+                await self.call(y, "setRemoteDescription", self.signal(px.localDescription), rnd=2)
+                answer2 = await self.call(y, "createAnswer", rnd=2)
+                await self.call(y, "setLocalDescription", answer2, rnd=2)
+                await self.call(x, "setRemoteDescription", self.signal(py.localDescription), rnd=2)
+                self.at_script("post@2", "enter")
 
             def connected():
                 if a.connectionState != "connected" or b.connectionState != "connected":
@@ -834,13 +852,14 @@ CHECK_DEADLOCK FALSE
 
 SAFETY = ["PostStates", "NoLateEvent", "SettledOK", "WitnessProbe"]
 WITNESSES = ["WitCloseAtIceConn", "WitCloseAtDtlsHs", "WitCloseFlowing", "WitCloseInNeg", "WitAutoClose",
-             "WitSecondWaits", "WitSecondAfter", "WitPeerGoneFirst", "WitRcvStartedWait", "WitIceFix", "WitLateChannel"]
+             "WitSecondWaits", "WitSecondAfter", "WitPeerGoneFirst", "WitRcvStartedWait", "WitIceFix", "WitLateChannel",
+             "WitIceWaitClosing"]
 # deviation -> what TLC must report with exactly that defect re-enabled in the model
 DEVIATIONS = {
     "ConsentAfterClose": "SettledOK", "SigAfterClose": "PostStates", "TrackNotEnded": "SettledOK",
     "MediaAfterClose": "SettledOK", "NoRtcpWait": "SettledOK", "SkipSctpStop": "PostStates",
     "NotIdempotent": "NoLateEvent", "DecoderNotJoined": "SettledOK", "SctpStopGuard": "PostStates",
-    "ChanOnClosed": "PostStates",
+    "ChanOnClosed": "PostStates", "StartEventSkipped": "SettledOK",
 }
 
 
@@ -1140,6 +1159,52 @@ def app_points(r, refs, thorough):
     return pts
 
 
+def reneg_points(r, thorough):
+    """A second negotiation round is started while the first one is still connecting (ICE checks /
+    DTLS handshake in flight), so that more than one __connect coroutine waits on the same
+    transport; close() at the calls of that round, at loop iterations inside it, and after the
+    peer has gone away (ICE keeps checking until the local close())."""
+    pts = []
+    cfgs = [SAMPLE_CFGS[0], SAMPLE_CFGS[2]] + ([SAMPLE_CFGS[1], SAMPLE_CFGS[4]] if thorough else [])
+    calls = ("createOffer", "setLocalDescription", "setRemoteDescription", "createAnswer", "setLocalDescription", "setRemoteDescription")
+    for ci, cfg0 in enumerate(cfgs):
+        for who in SIDES:
+            if not thorough and ci == 1 and who == "B":
+                continue
+            cfg = dict(cfg0, reneg=who)
+            if ci % 2 == 0 and who == "A":
+                cfg["reneg_add"] = "dc"
+            y = other(who)
+            second = ["%s.%s@2" % (sd, nm) for sd, nm in zip((who, who, y, y, y, who), calls)]
+            # the peer leaves before / while the second round runs, the local close() follows later
+            gone = [("A.setRemoteDescription", "enter"), ("B.setLocalDescription", "exit"), ("post", "enter"),
+                    (second[0], "enter"), (second[1], "enter"), (second[1], "exit")]
+            for lab, ph in gone:
+                for gap in ((30, 300) if thorough else (300,)):
+                    pts.append({"cfg": cfg, "trig": {"kind": "script", "label": lab, "phase": ph}, "mode": "other_first",
+                                "side": who, "gap_ms": gap, "settle_ms": 20, "src": "reneg", "connect_bound": 5.0})
+            # close() at the calls of the second round
+            for i, lab in enumerate(second + ["post@2"]):
+                for ph in (("enter",) if lab == "post@2" else ("enter", "exit")):
+                    if not thorough and (i + ci + (ph == "exit")) % 2:
+                        continue
+                    pts.append({"cfg": cfg, "trig": {"kind": "script", "label": lab, "phase": ph},
+                                "mode": MODES[len(pts) % 4] if thorough or i % 2 else "single", "side": SIDES[len(pts) % 2],
+                                "gap_ms": r.choice([0, 2, 20]), "settle_ms": r.choice([0, 20, 200]), "src": "reneg", "connect_bound": 5.0})
+            # ... and at loop iterations / transport labels inside it
+            for j in range(40 if thorough else 6):
+                if j % 3 == 2:
+                    trig = {"kind": "label", "side": r.choice(SIDES), "label": r.choice(LABELS[1:]), "phase": r.choice(["enter", "exit"]), "n": r.choice([1, 2])}
+                    if trig["label"] == "ice_check_done":
+                        trig["phase"] = "exit"
+                else:
+                    trig = {"kind": "iter", "k": r.randint(8, 90)}
+                pts.append({"cfg": cfg, "trig": trig, "mode": r.choice(["single", "single", "both", "other_first"]),
+                            "side": trig.get("side", r.choice(SIDES)), "gap_ms": r.choice([0, 2, 20, 300]), "settle_ms": r.choice([0, 20, 200]),
+                            "src": "reneg", "connect_bound": 5.0})
+    return pts
+
+
 def delay_points(r, refs, n):
     pts = []
     for i in range(n):
@@ -1402,7 +1467,7 @@ def run():
 
             # ---- 2b/3. all scenarios
             rest = (product_points(r, thorough) + iteration_points(r, refs, thorough) + delay_points(r, refs, 300 if thorough else 16)
-                    + app_points(r, refs, thorough))
+                    + app_points(r, refs, thorough) + reneg_points(r, thorough))
             r.shuffle(rest)                       # a time cut must not starve one kind of point
             scenarios = list(tlc_points) + rest
             for i, s in enumerate(scenarios):
@@ -1547,7 +1612,7 @@ def run():
                     "the scripted session (not the fallback close at the end)",
             "trace_events_validated": sum(len(x["steps"]) for x in good),
             "executions_by_source": {k: sum(1 for x in good if x["sc"].get("src") == k)
-                                     for k in ("reference", "tlc", "label", "script", "iter", "delay", "app")},
+                                     for k in ("reference", "tlc", "label", "script", "iter", "delay", "app", "reneg")},
             "app_actions": {k: sum(1 for x in good for st in x["steps"] if st.get("op") == "app" and
                                    ("%s/%s/sctp=%s" % (st["what"], "ok" if st["res"] == "ok" else "raised", st.get("sctp"))) == k)
                             for k in sorted({"%s/%s/sctp=%s" % (st["what"], "ok" if st["res"] == "ok" else "raised", st.get("sctp"))
